@@ -106,6 +106,7 @@ type c18Scenario struct {
 	infra    []asserts.Assertion
 	r0       *c18Key             // trusted, open-ended, unconstrained root key
 	lifeBase []asserts.Assertion // [root account, R0 account-key]: trusted set of the key-lifecycle database
+	cfg      *asserts.DatabaseConfig // configuration sc.db was opened with (replay stream: variants with one more trusted / predefined assertion)
 }
 
 var c18Zones = []*time.Location{time.UTC, time.FixedZone("", 2*3600), time.FixedZone("", -(5*3600 + 30*60))}
@@ -368,6 +369,7 @@ func c18NewScenario(idx int, rng *rand.Rand) *c18Scenario {
 	sc.infra = append(sc.infra, trusted...)
 	sc.infra = append(sc.infra, decl)
 	cfg := &asserts.DatabaseConfig{Trusted: trusted, OtherPredefined: predefined, Backstore: bs}
+	sc.cfg = cfg
 	if sc.db, err = asserts.OpenDatabase(cfg); err != nil {
 		panic(err)
 	}
